@@ -126,7 +126,15 @@ func tagIncludeParser(doc *Parser, start *Token, arguments *Parser) (INodeTag, *
 				// arguments are checked like those of any other tag)
 				missing = true
 			} else {
-				return nil, err.(*Error).updateFromTokenIfNeeded(doc.template, filenameToken)
+				e := err.(*Error).updateFromTokenIfNeeded(doc.template, filenameToken)
+				if e.Line == 0 {
+					// The error names the file that could not be loaded and has no position
+					// in it. The message of a failed static include has always read "in
+					// <that file> | Line/Col of this tag" (the test-suite expects it), so
+					// the tag's position is added here, and only here.
+					e.Token, e.Line, e.Column = filenameToken, filenameToken.Line, filenameToken.Col
+				}
+				return nil, e
 			}
 		}
 		includeNode.tpl = includedTpl
